@@ -129,7 +129,15 @@ impl FixedBuf {
             )
         };
         if p == libc::MAP_FAILED || p as u64 != map_start {
-            return Err(format!("mmap at {map_start:#x} failed"));
+            // the pages are already mapped: by an earlier buffer of the same case that overlaps
+            // this one (nested registered ranges).  Only the bytes are written; the earlier
+            // buffer owns the mapping (and its canary check no longer applies).
+            let probe = unsafe { libc::msync(map_start as *mut libc::c_void, map_len, libc::MS_ASYNC) };
+            if probe != 0 {
+                return Err(format!("mmap at {map_start:#x} failed"));
+            }
+            unsafe { std::ptr::copy_nonoverlapping(data.as_ptr(), base as *mut u8, len) };
+            return Ok(FixedBuf { base, len, map_start: 0, map_len: 0 });
         }
         // fill the slack of the pages with a canary, then the data
         unsafe {
@@ -149,8 +157,12 @@ impl FixedBuf {
         unsafe { std::slice::from_raw_parts(self.base as *const u8, self.len).to_vec() }
     }
     /// TRUE iff the bytes of the mapped pages outside the buffer still hold the canary.
+    /// This buffer was laid over pages owned by an earlier, overlapping buffer.
+    pub fn is_overlay(&self) -> bool {
+        self.len > 0 && self.map_len == 0
+    }
     pub fn slack_intact(&self) -> bool {
-        if self.len == 0 {
+        if self.len == 0 || self.map_len == 0 {
             return true;
         }
         let all = unsafe { std::slice::from_raw_parts(self.map_start as *const u8, self.map_len) };
